@@ -39,6 +39,10 @@ func cmdReplay(args []string) int {
 		fmt.Fprintln(os.Stderr, err)
 		return 2
 	}
+	wantProp, wantMon := rf.Property, rf.Monitor
+	if rf.MatchMonitor != "" {
+		wantProp, wantMon = rf.MatchProperty, rf.MatchMonitor
+	}
 	reproduced := 0
 	for i := 0; i < *n; i++ {
 		ok := false
@@ -56,7 +60,7 @@ func cmdReplay(args []string) int {
 			w := worlds.Factory(*rf.Unit.Scenario)()
 			report := func(step string, vs []mc.Violation) {
 				for _, v := range vs {
-					if v.Property == rf.Property && v.Monitor == rf.Monitor {
+					if v.Property == wantProp && v.Monitor == wantMon {
 						ok = true
 					}
 					if !*quiet && i == 0 {
